@@ -166,6 +166,19 @@ def run_shard(spec, res):
                 members = [0]
                 anc_idx = None
                 res.count("directed_split_cases")
+            directed_hybrid_split = it % 12 == 7 and cname == "SolverHybrid"
+            if directed_hybrid_split:
+                # one group the approximate half can see through (a value pinned and bounded away from it), one harmless
+                run = api.Run(res, uni_vars, cls, PID, mode="exact" if exact else "none", cfg=cfg, keep=keep)
+                x_, y_ = al.v(0), al.v(1 % al.nvars)
+                hi_ = rng.randrange(3, 8)
+                pair_ = rng.choice([[["eq", y_, ["bvv", hi_, al.w]], ["ule", y_, ["bvv", hi_ - 2, al.w]]], [["eq", y_, ["bvv", hi_, al.w]], ["eq", y_, ["bvv", hi_ - 1, al.w]]], [["uge", y_, ["bvv", hi_, al.w]], ["eq", y_, ["bvv", hi_ - 2, al.w]]]])
+                run.step({"op": "add", "s": 0, "cons": [["ule", x_, ["bvv", rng.randrange(1, 7), al.w]]]})
+                for c_ in pair_:
+                    run.step({"op": "add", "s": 0, "cons": [c_]})
+                members = [0]
+                anc_idx = None
+                res.count("directed_hybrid_split_cases")
             directed_unsat_child = it % 12 == 9
             if directed_unsat_child:
                 # a contradiction that only the backend can see, in constraints over x alone, never asked about; copies
@@ -190,7 +203,7 @@ def run_shard(spec, res):
             op = rng.choice(["merge", "merge", "merge_anc", "combine", "combine", "split", "split"])
             if directed_combine:
                 op = "combine"
-            if directed_split:
+            if directed_split or directed_hybrid_split:
                 op = "split"
             if directed_unsat_child:
                 op = rng.choice(["merge", "merge", "combine"])
@@ -258,6 +271,21 @@ def run_shard(spec, res):
                     for j in range(i + 1, len(parts)):
                         if varsets[i] & varsets[j]:
                             res.violation({"kind": "setop", "what": "split-parts-share-variables", "config": cfg, "constraints": base.cons, "parts": [[repr(x)[:120] for x in p.constraints] for p in parts], "shared": sorted(varsets[i] & varsets[j])})
+                            break
+                if cname == "SolverHybrid":
+                    # each part has an approximate half of its own: it may only know the part's constraints - a part whose
+                    # constraints are satisfiable must not be called unsatisfiable by it
+                    for p_ in parts:
+                        ok_, _m = z3ref.is_sat([sem.claripy_z3(x) for x in p_.constraints], timeout_ms=tmo) if p_.constraints else (True, None)
+                        if ok_ is not True:
+                            continue
+                        res.count("hybrid_parts_asked_approximately")
+                        try:
+                            ans_ = p_.satisfiable(exact=False)
+                        except claripy.errors.ClaripyError:
+                            continue
+                        if ans_ is False:
+                            res.violation({"kind": "setop", "what": "split-part-approximately-unsatisfiable-although-its-constraints-are-satisfiable", "config": cfg, "constraints": base.cons, "part": [repr(x)[:120] for x in p_.constraints]})
                             break
                 T = z3.And(*[TRUE] + [sem.claripy_z3(x) for p in parts for x in p.constraints])
                 S = models_of_claripy(run.uni, before)
